@@ -448,3 +448,32 @@ def lineprogs_to_file(cases, path, first=10):
         evs.append(ev)
     _dump(evs, path)
     return len(evs)
+
+
+def signatures_to_file(cases, path):
+    """MC_Signature shapes as hand-built functions: Args given by hand, no private fields; the code
+    object that comes out must have exactly that signature (calling convention / inspect)"""
+    from code_data import Args, CodeData, Constant, Function, Instruction, Varname
+
+    evs = []
+    for c in cases:
+        npo, npk, nko, hva, hvk, kind = c["shape"]
+        if npo and V < (3, 8):
+            continue
+        a = Args(tuple("p%d" % i for i in range(npo)), tuple("a%d" % i for i in range(npk)), "args" if hva else None,
+                 tuple("k%d" % i for i in range(nko)), "kw" if hvk else None)
+        body = []
+        # touch the parameters in reverse order, then a local: the encoder must still lay co_varnames out as CPython does
+        for n in reversed(list(a.parameters)):
+            body.append(Instruction("LOAD_FAST", Varname(n), line_number=2))
+            body.append(Instruction("POP_TOP", line_number=2))
+        body.append(Instruction("LOAD_CONST", Constant("not a docstring"), line_number=2))
+        body.append(Instruction("STORE_FAST", Varname("local"), line_number=2))
+        body.append(Instruction("LOAD_CONST", Constant(None), line_number=3))
+        body.append(Instruction("RETURN_VALUE", line_number=3))
+        cd = CodeData(blocks=(tuple(body),), filename="<sig>", first_line_number=1, name="f", stacksize=2,
+                      type=Function(a, c.get("doc"), kind or None))
+        ev, _ = encode_event(cd, c["id"], "hand")
+        evs.append(ev)
+    _dump(evs, path)
+    return len(evs)
